@@ -100,6 +100,31 @@ Proof.
 Qed.
 Print Assumptions source_layout_pinned.
 
+(** ... and the loop bounds / bodies of VSIgetvdatas, Vgetvgroups, VHmakegroup, Vgettagrefs, Vlone, VSlone, Vinsert and
+    the shared-mode statement of Vattach *)
+Theorem source_loops_pinned :
+  vsigetvdatas_count = "int32n_elements=Vntagrefs(id);"%string /\
+  vgetvgroups_count = "int32n_elements=Vntagrefs(id);"%string /\
+  vhmakegroup_loop =
+    "for(i=0;i<n;i++){if(Vaddtagref(vg,tagarray[i],refarray[i])==FAIL)HGOTO_ERROR(DFE_CANTADDELEM,FAIL);}ref=VQueryref(vg);"%string /\
+  vgettagrefs_clamp = "if(n>(int32)vg->nvelt)n=(int32)vg->nvelt;"%string /\
+  vattach_shared_mode = "v->vg->access=MAX(v->vg->access,acc_mode);v->nattach++;"%string /\
+  vlone_member_loop = "for(i=0;i<Vntagrefs(vkey);i++){Vgettagref(vkey,i,&vstag,&id);"%string /\
+  vslone_member_loop = "for(i=0;i<Vntagrefs(vkey);i++){Vgettagref(vkey,i,&vstag,&vsid);"%string /\
+  vinsert_dup_scan =
+    "for(u=0;u<(unsigned)vg->nvelt;u++){if((vg->ref[u]==newref)&&(vg->tag[u]==newtag))HGOTO_ERROR(DFE_DUPDD,FAIL);}"%string /\
+  Z.of_nat (List.length HDF_INTERNAL_VDS) = HDF_NUM_INTERNAL_VDS /\
+  List.length _HDF_CHK_TBL_CLASS = 13%nat.
+Proof. exact Layout.source_loops_pinned_lemma. Qed.
+Print Assumptions source_loops_pinned.
+
+(** every entry point of the three source files is driven, reached, or assigned elsewhere *)
+Theorem api_accounted :
+  forallb (fun f => existsb (String.eqb f) (Layout.api_driven ++ Layout.api_indirect ++ Layout.api_elsewhere))
+          vg_api_functions = true.
+Proof. exact Layout.api_accounted_lemma. Qed.
+Print Assumptions api_accounted.
+
 (* ---- non-vacuity ------------------------------------------------------------------------------------ *)
 (** a vgroup grown past its first capacity step, with a duplicate and a delete in the middle *)
 Definition ex_ops : list mop :=
@@ -146,7 +171,7 @@ Definition ex_g (r n : Z) (tg rf : list Z) : VGROUP :=
   mkVG r n 64 (tg ++ repeat 0 (64 - length tg)) (rf ++ repeat 0 (64 - length rf)) None None 0 0 0 0 [] 3 0 true true true.
 Definition ex_state : mstate :=
   mkm [] [(2, ex_g 2 2 [1965; 1962] [5; 4]); (5, ex_g 5 0 [] []); (9, ex_g 9 1 [1965] [77])]
-      [(4, mkvs [118] []); (6, mkvs [119] [])] [] [].
+      [(4, mkvs [118] [] []); (6, mkvs [119] [] [[102]])] [] [].
 Example ex_state_ok : table_ok (m_vg ex_state) /\ table_ok (m_vs ex_state) /\
   (forall k g, In (k, g) (m_vg ex_state) -> WF g /\ refs_ok g).
 Proof.
@@ -168,13 +193,19 @@ Definition ex_hist : list op :=
    OVgAttach 1 2 true; OVgAttach 2 2 false; OVgDetach 1; OLone 4;
    OAddTagRef 2 1962 3; OSetName 2 [110]; OVgDetach 2;
    OVgAttach 3 2 false; OAddTagRef 3 720 1; OGetTagRefs 3 5; OVgDetach 3;
-   OReopen; OVgAttach 4 2 false; OGetTagRefs 4 5; OGetName 4; OFind [110]; OIter].
+   OReopen; OVgAttach 4 2 false; OGetTagRefs 4 5; OGetName 4; OFind [110]; OIter;
+   OVsNew 3 [118] [99] [[102]]; OVHMakeGroup 5 (Some [109]) None [(1962, 3); (1965, 2); (1962, 3)];
+   OVgAttach 6 5 true; OGetTagRefs 6 9; OGetVdatasG 6 None 0 9; OAddTagRef 6 1962 3; OGetVdatasG 6 (Some [99]) 0 0;
+   OFlocate 6 [102]; OGetVgroupsG 6 0 9; OVentries 5].
 Example ex_hist_spec : s_trace init ex_hist =
   [ROk [] None; ROk [2] None; ROk [1] None; ROk [] None;
    ROk [] None; ROk [] None; ROk [] None; ROk [1; 2] None;
    ROk [2] None; ROk [] None; ROk [] None;
    ROk [] None; RFail; ROk [2; 1965; 7; 1962; 3] None; ROk [] None;
-   ROk [] None; ROk [] None; ROk [2; 1965; 7; 1962; 3] None; ROk [] (Some [110]); ROk [2] None; ROk [2] None].
+   ROk [] None; ROk [] None; ROk [2; 1965; 7; 1962; 3] None; ROk [] (Some [110]); ROk [2] None; ROk [2] None;
+   ROk [3] None; ROk [5] None;
+   ROk [] None; ROk [3; 1962; 3; 1965; 2; 1962; 3] None; ROk [2; 3; 3] None; ROk [4] None; ROk [3] None;
+   ROk [3] None; ROk [1; 2] None; ROk [4] None].
 Proof. vm_compute. reflexivity. Qed.
 Example ex_hist_model : m_trace minit ex_hist = s_trace init ex_hist.
 Proof. vm_compute. reflexivity. Qed.
